@@ -1,0 +1,365 @@
+//! Instrumentation for external verification harnesses.
+//!
+//! Compiled only with `--cfg arc_swap_verif`. Without that flag this file is not part of the
+//! crate at all.
+//!
+//! It provides drop-in replacements of `AtomicUsize` and `AtomicPtr` that report every operation
+//! to a hook (if one is installed) before and after performing it on the real atomic, and few
+//! accessors into the otherwise private global state (the list of debt nodes).
+//!
+//! With no hook installed, the wrappers behave exactly like the real atomics.
+#![allow(missing_docs)]
+
+use core::panic::Location;
+use core::sync::atomic::Ordering;
+use core::sync::atomic::{AtomicPtr as RealPtr, AtomicUsize as RealUsize};
+
+use alloc::vec::Vec;
+
+/// The kind of atomic operation.
+#[derive(Copy, Clone, Debug, Eq, PartialEq)]
+pub enum Op {
+    Load,
+    Store,
+    Swap,
+    Cas,
+    CasWeak,
+    FetchAdd,
+    FetchSub,
+}
+
+/// Description of one atomic access, as passed to the hooks.
+#[derive(Copy, Clone, Debug)]
+pub struct Access {
+    /// Address of the atomic variable.
+    pub addr: usize,
+    pub op: Op,
+    /// Ordering (the success ordering of a CAS).
+    pub ord: Ordering,
+    /// Failure ordering of a CAS (same as `ord` otherwise).
+    pub fail_ord: Ordering,
+    /// Operand: stored/swapped-in value, expected value of a CAS, the addend.
+    pub a: usize,
+    /// The new value of a CAS.
+    pub b: usize,
+    /// Source location of the call.
+    pub site: &'static Location<'static>,
+}
+
+/// What the `pre` hook wants the operation to do.
+#[derive(Copy, Clone, Debug, Eq, PartialEq)]
+pub enum Decision {
+    /// Perform the operation on the real atomic.
+    Proceed,
+    /// Only for `CasWeak`: fail spuriously, without touching the atomic (other than reading it).
+    SpuriousFail,
+    /// Only for `Load` with other ordering than `SeqCst`: return this (older) value instead.
+    Stale(usize),
+}
+
+pub struct Hooks {
+    /// Called before the operation. A scheduling point.
+    pub pre: fn(&Access) -> Decision,
+    /// Called after the operation with the previous value of the atomic (for loads the value
+    /// returned) and, for CAS, whether it succeeded.
+    pub post: fn(&Access, usize, bool),
+}
+
+static HOOKS: RealPtr<Hooks> = RealPtr::new(core::ptr::null_mut());
+
+/// Installs the hooks (globally, for all threads).
+pub fn install(hooks: &'static Hooks) {
+    HOOKS.store(hooks as *const Hooks as *mut Hooks, Ordering::SeqCst);
+}
+
+#[inline]
+fn hooks() -> Option<&'static Hooks> {
+    unsafe { HOOKS.load(Ordering::Relaxed).as_ref() }
+}
+
+#[inline]
+fn pre(acc: &Access) -> Decision {
+    match hooks() {
+        Some(h) => (h.pre)(acc),
+        None => Decision::Proceed,
+    }
+}
+
+#[inline]
+fn post(acc: &Access, old: usize, ok: bool) {
+    if let Some(h) = hooks() {
+        (h.post)(acc, old, ok)
+    }
+}
+
+/// Reads the value of a (wrapped) atomic at the given address, bypassing the hooks.
+///
+/// # Safety
+///
+/// The address must be one reported by this module.
+pub unsafe fn peek(addr: usize) -> usize {
+    (*(addr as *const RealUsize)).load(Ordering::SeqCst)
+}
+
+#[repr(transparent)]
+#[derive(Debug, Default)]
+pub struct AtomicUsize(RealUsize);
+
+impl AtomicUsize {
+    pub const fn new(v: usize) -> Self {
+        AtomicUsize(RealUsize::new(v))
+    }
+
+    #[inline]
+    fn acc(
+        &self,
+        op: Op,
+        ord: Ordering,
+        fail_ord: Ordering,
+        a: usize,
+        b: usize,
+        site: &'static Location<'static>,
+    ) -> Access {
+        Access {
+            addr: self as *const _ as usize,
+            op,
+            ord,
+            fail_ord,
+            a,
+            b,
+            site,
+        }
+    }
+
+    pub fn get_mut(&mut self) -> &mut usize {
+        self.0.get_mut()
+    }
+
+    #[track_caller]
+    pub fn load(&self, ord: Ordering) -> usize {
+        let acc = self.acc(Op::Load, ord, ord, 0, 0, Location::caller());
+        let v = match pre(&acc) {
+            Decision::Stale(v) if ord != Ordering::SeqCst => v,
+            _ => self.0.load(ord),
+        };
+        post(&acc, v, true);
+        v
+    }
+
+    #[track_caller]
+    pub fn store(&self, v: usize, ord: Ordering) {
+        let acc = self.acc(Op::Store, ord, ord, v, 0, Location::caller());
+        pre(&acc);
+        // A swap, to be able to report the previous value.
+        let old = self.0.swap(v, Ordering::SeqCst);
+        post(&acc, old, true);
+    }
+
+    #[track_caller]
+    pub fn swap(&self, v: usize, ord: Ordering) -> usize {
+        let acc = self.acc(Op::Swap, ord, ord, v, 0, Location::caller());
+        pre(&acc);
+        let old = self.0.swap(v, ord);
+        post(&acc, old, true);
+        old
+    }
+
+    #[track_caller]
+    pub fn compare_exchange(
+        &self,
+        current: usize,
+        new: usize,
+        ord: Ordering,
+        fail_ord: Ordering,
+    ) -> Result<usize, usize> {
+        let acc = self.acc(Op::Cas, ord, fail_ord, current, new, Location::caller());
+        pre(&acc);
+        let r = self.0.compare_exchange(current, new, ord, fail_ord);
+        match r {
+            Ok(old) => post(&acc, old, true),
+            Err(old) => post(&acc, old, false),
+        }
+        r
+    }
+
+    #[track_caller]
+    pub fn compare_exchange_weak(
+        &self,
+        current: usize,
+        new: usize,
+        ord: Ordering,
+        fail_ord: Ordering,
+    ) -> Result<usize, usize> {
+        let acc = self.acc(Op::CasWeak, ord, fail_ord, current, new, Location::caller());
+        let r = match pre(&acc) {
+            Decision::SpuriousFail => Err(self.0.load(fail_ord)),
+            // The strong one, so the only spurious failures are the requested ones.
+            _ => self.0.compare_exchange(current, new, ord, fail_ord),
+        };
+        match r {
+            Ok(old) => post(&acc, old, true),
+            Err(old) => post(&acc, old, false),
+        }
+        r
+    }
+
+    #[track_caller]
+    pub fn fetch_add(&self, v: usize, ord: Ordering) -> usize {
+        let acc = self.acc(Op::FetchAdd, ord, ord, v, 0, Location::caller());
+        pre(&acc);
+        let old = self.0.fetch_add(v, ord);
+        post(&acc, old, true);
+        old
+    }
+
+    #[track_caller]
+    pub fn fetch_sub(&self, v: usize, ord: Ordering) -> usize {
+        let acc = self.acc(Op::FetchSub, ord, ord, v, 0, Location::caller());
+        pre(&acc);
+        let old = self.0.fetch_sub(v, ord);
+        post(&acc, old, true);
+        old
+    }
+}
+
+#[repr(transparent)]
+#[derive(Debug)]
+pub struct AtomicPtr<T>(RealPtr<T>);
+
+impl<T> Default for AtomicPtr<T> {
+    fn default() -> Self {
+        AtomicPtr(RealPtr::default())
+    }
+}
+
+impl<T> AtomicPtr<T> {
+    pub const fn new(v: *mut T) -> Self {
+        AtomicPtr(RealPtr::new(v))
+    }
+
+    #[inline]
+    fn acc(
+        &self,
+        op: Op,
+        ord: Ordering,
+        fail_ord: Ordering,
+        a: *mut T,
+        b: *mut T,
+        site: &'static Location<'static>,
+    ) -> Access {
+        Access {
+            addr: self as *const _ as usize,
+            op,
+            ord,
+            fail_ord,
+            a: a as usize,
+            b: b as usize,
+            site,
+        }
+    }
+
+    pub fn get_mut(&mut self) -> &mut *mut T {
+        self.0.get_mut()
+    }
+
+    #[track_caller]
+    pub fn load(&self, ord: Ordering) -> *mut T {
+        let null = core::ptr::null_mut();
+        let acc = self.acc(Op::Load, ord, ord, null, null, Location::caller());
+        let v = match pre(&acc) {
+            Decision::Stale(v) if ord != Ordering::SeqCst => v as *mut T,
+            _ => self.0.load(ord),
+        };
+        post(&acc, v as usize, true);
+        v
+    }
+
+    #[track_caller]
+    pub fn store(&self, v: *mut T, ord: Ordering) {
+        let null = core::ptr::null_mut();
+        let acc = self.acc(Op::Store, ord, ord, v, null, Location::caller());
+        pre(&acc);
+        let old = self.0.swap(v, Ordering::SeqCst);
+        post(&acc, old as usize, true);
+    }
+
+    #[track_caller]
+    pub fn swap(&self, v: *mut T, ord: Ordering) -> *mut T {
+        let null = core::ptr::null_mut();
+        let acc = self.acc(Op::Swap, ord, ord, v, null, Location::caller());
+        pre(&acc);
+        let old = self.0.swap(v, ord);
+        post(&acc, old as usize, true);
+        old
+    }
+
+    #[track_caller]
+    pub fn compare_exchange(
+        &self,
+        current: *mut T,
+        new: *mut T,
+        ord: Ordering,
+        fail_ord: Ordering,
+    ) -> Result<*mut T, *mut T> {
+        let acc = self.acc(Op::Cas, ord, fail_ord, current, new, Location::caller());
+        pre(&acc);
+        let r = self.0.compare_exchange(current, new, ord, fail_ord);
+        match r {
+            Ok(old) => post(&acc, old as usize, true),
+            Err(old) => post(&acc, old as usize, false),
+        }
+        r
+    }
+
+    #[track_caller]
+    pub fn compare_exchange_weak(
+        &self,
+        current: *mut T,
+        new: *mut T,
+        ord: Ordering,
+        fail_ord: Ordering,
+    ) -> Result<*mut T, *mut T> {
+        let acc = self.acc(Op::CasWeak, ord, fail_ord, current, new, Location::caller());
+        let r = match pre(&acc) {
+            Decision::SpuriousFail => Err(self.0.load(fail_ord)),
+            _ => self.0.compare_exchange(current, new, ord, fail_ord),
+        };
+        match r {
+            Ok(old) => post(&acc, old as usize, true),
+            Err(old) => post(&acc, old as usize, false),
+        }
+        r
+    }
+}
+
+/// Addresses of the atomics inside one debt node.
+#[derive(Clone, Debug, Default)]
+pub struct NodeAddrs {
+    /// The node itself.
+    pub node: usize,
+    pub fast: Vec<usize>,
+    pub control: usize,
+    pub slot: usize,
+    pub active_addr: usize,
+    pub handover: usize,
+    pub space_offer: usize,
+    pub in_use: usize,
+    pub active_writers: usize,
+}
+
+/// Address of the head of the global list of nodes.
+pub fn list_head_addr() -> usize {
+    crate::debt::Node::verif_head_addr()
+}
+
+/// The nodes of the global list, the oldest first. Doesn't go through the hooks.
+pub fn nodes() -> Vec<NodeAddrs> {
+    crate::debt::Node::verif_nodes()
+}
+
+/// Sets the generation counter of the helping strategy of the current thread.
+///
+/// Gets a node for the thread if it has none.
+pub fn set_generation(gen: usize) {
+    crate::debt::LocalNode::verif_set_generation(gen)
+}
